@@ -89,7 +89,7 @@ def op_wire(o):
         return {"op": "ini", "ini": {"text": lib.l1(o["text"]), "asdefaults": o.get("asdefaults", False)}}
     if o["op"] == "writeini":
         return {"op": "writeini", "iniopts": o["iniopts"]}
-    if o["op"] in ("help", "man"):
+    if o["op"] in ("help", "man", "inspect"):
         return {"op": o["op"]}
     if o["op"] == "complete":
         return {"op": "complete", "args": [lib.l1(x) for x in o["args"]]}
@@ -359,6 +359,8 @@ def s_op(o):
         return b"W" + s_nat(o["iniopts"])
     if o["op"] == "help": return b"H"
     if o["op"] == "man": return b"M"
+    if o["op"] == "inspect": return b"N"
+    if o["op"] == "complete": return b"C" + s_list([s_str(x) for x in o["args"]])
     raise ValueError(o)
 
 
